@@ -93,7 +93,18 @@ BerEvOK(ev) ==
                                                        /\ ev.lines_ldpc[t].frames = ev.lines[t].frames
                                                        /\ ev.lines_ldpc[t].ferr >= ev.lines[t].ferr)
 
-EvOK(ev) == CASE ev.e = "Gen" -> GenOK(ev) [] ev.e = "Construct" -> ConstructOK(ev) [] ev.e = "Sys" -> SysEvOK(ev)
+\* the girth printed "when asked", against oracles independent of the library's girth search: (large codes) it is 4 exactly when the
+\* harness's column-pair test finds a 4-cycle, and a printed 6 comes with a 6-cycle; (small PEG matrices) TLC computes the girth itself
+T == INSTANCE Tanner
+GirthEvOK(ev) ==
+  /\ ev.o = "ok" /\ Success(ev) /\ ev.parsed
+  /\ IF ev.small
+     THEN ev.printed = T!Girth(T!Adj(ev.rows, ev.nr, ev.nc))
+     ELSE /\ ev.printed >= 4 /\ ev.printed % 2 = 0
+          /\ (ev.printed = 4 <=> ev.four_cycle)
+          /\ (ev.printed > 6 => ev.cyc6 = <<>>)
+
+EvOK(ev) == CASE ev.e = "Girth" -> GirthEvOK(ev) [] ev.e = "Gen" -> GenOK(ev) [] ev.e = "Construct" -> ConstructOK(ev) [] ev.e = "Sys" -> SysEvOK(ev)
               [] ev.e = "Encode" -> EncodeEvOK(ev) [] ev.e = "Ber" -> BerEvOK(ev) [] OTHER -> FALSE
 
 Init == l = 1
